@@ -52,7 +52,6 @@ m = {"version": 1,
      "engines": [{"name": "tla", "path": "/verif/spec", "serves_properties": [c["property_id"] for c in checks],
                   "kind_free_text": "explicit TLA+ specification checked with TLC; bound to the code by replaying TLC-generated behaviours into the crate and by validating traces recorded from the crate (bin/check, harness/)"}],
      "checks": checks, "notes": "See DESIGN.md. Exit 2 = tool trouble (never a VIOLATION)."}
-if na:
-    m["not_applicable"] = na
+m["not_applicable"] = na      # empty: every property is decided with the specification
 json.dump(m, open(os.path.join(ROOT, "MANIFEST.json"), "w"), indent=1)
 print("claimed", len(checks), "not claimed", len(na))
